@@ -1080,15 +1080,15 @@ package p9p
 //@ inline
 //@ recursion 16
 // loop 2: `for _, m := range v` of the []string case (v#2: the type-switch binding, after the range variable v)
-//@ loop 2 invariant 0 <= $done && $done <= len(v#3)
-//@ loop 2 invariant out(e.wr) == bcat(entry(out(e.wr)), namesUpto(v#3, $done))
+//@ loop 2 invariant 0 <= $done && $done <= len(v#LJstring)
+//@ loop 2 invariant out(e.wr) == bcat(entry(out(e.wr)), namesUpto(v#LJstring, $done))
 
 //@ func size9p
 //@ inline
 //@ recursion 16
 // loop 2: `for _, sv := range v` of the []string case
-//@ loop 2 invariant 0 <= $done && $done <= len(v#3)
-//@ loop 2 invariant entry(s#1) + blen(namesUpto(v#3, len(v#3))) < 4294967296 ==> s#1 == entry(s#1) + blen(namesUpto(v#3, $done))
+//@ loop 2 invariant 0 <= $done && $done <= len(v#LJstring)
+//@ loop 2 invariant entry(s#uint32) + blen(namesUpto(v#LJstring, len(v#LJstring))) < 4294967296 ==> s#uint32 == entry(s#uint32) + blen(namesUpto(v#LJstring, $done))
 
 //@ func (*decoder).decode
 //@ inline
